@@ -14,6 +14,8 @@ from . import build
 VERIF = build.VERIF
 RUN_ROOT = os.path.join(VERIF, '.run')
 _counter = [0]
+MAXLOG = [0]
+HANGS = [0]
 
 def run_dir():
     d = os.path.join(RUN_ROOT, str(os.getpid()))
@@ -57,8 +59,12 @@ def run_scenario(flavour, text, timeout=180, leaks=False, valgrind=None, keep=Fa
     wd = os.path.join(run_dir(), 'c%d_%d' % (_counter[0], int(time.time() * 1e6) % 1000000))
     os.makedirs(wd, exist_ok=True)
     sp = os.path.join(wd, 's.txt')
+    run_text = text
+    if HANGS[0] >= 3:
+        # this tree has already shown three hangs in this check: the verdict is settled, do not spend the full watchdog on every further one
+        run_text = re.sub(r'(?m)^watchdog (\d+)$', lambda m_: 'watchdog %d' % min(int(m_.group(1)), 20000), text, count=1)
     with open(sp, 'w') as f:
-        f.write(text)
+        f.write(run_text)
     evp = os.path.join(wd, 'ev.jsonl')
     env = san_env(flavour, wd, leaks)
     cmd = [player, sp, evp]
@@ -79,8 +85,22 @@ def run_scenario(flavour, text, timeout=180, leaks=False, valgrind=None, keep=Fa
     r.wall = time.time() - t0
     r.events = []
     try:
+        MAXLOG[0] = max(MAXLOG[0], os.path.getsize(evp))
+    except OSError:
+        pass
+    try:
+        big = os.path.getsize(evp) > (12 << 20)
         with open(evp, encoding='utf-8', errors='replace') as f:
-            for line in f:
+            if big:
+                # a run that ended at the event-log cap (endless activity): head and tail are enough for the verdict (hang) and the witness
+                import collections
+                head, tail = [], collections.deque(maxlen=4000)
+                for i, line in enumerate(f):
+                    (head if i < 40000 else tail).append(line)
+                lines = head + list(tail)
+            else:
+                lines = f
+            for line in lines:
                 try:
                     r.events.append(json.loads(line))
                 except Exception:
@@ -98,6 +118,8 @@ def run_scenario(flavour, text, timeout=180, leaks=False, valgrind=None, keep=Fa
     r.flavour = flavour
     r.workdir = wd
     r.tag = tag
+    if r.rc == 98 or r.timed_out:
+        HANGS[0] += 1
     if not keep:
         shutil.rmtree(wd, ignore_errors=True)
     return r
